@@ -355,7 +355,24 @@ def run(fx, tier):
     from c18 import short_form_rule
     v.rule('R-SCHEMA', 'Remaining Length 0 - and only 0 - yields the default message for the packets that carry a reason code')
     short_form_rule(fx, v, 'C20')
-    v.expect_min('R-FLOW', 20, 'to_reason_code call sites: category + admission')
+    # a reason code that reaches the user is one that to_reason_code admitted: outside reason_codes.hpp no reason_code object
+    # is constructed from a run-time (wire) byte - such an object bypasses the tables altogether
+    n_ctor = 0
+    for f in fx.fns:
+        if not f.path_file().startswith('boost/mqtt5/') or f.path_file().endswith('reason_codes.hpp'):
+            continue
+        for b, i, l, x in f.elements():
+            x = f.resolve({'k': 'elem', 'b': b, 'i': i})
+            for nd in Expr.walk(x):
+                if nd.get('k') == 'ctor' and nd.get('cls') == 'reason_code' and not nd.get('copy') and nd.get('args'):
+                    a0 = nd['args'][0]
+                    a0 = f.resolve(a0) if isinstance(a0, dict) and a0.get('k') == 'elem' else a0
+                    const = isinstance(a0, dict) and ('c' in a0 or ('c' in unwrap(a0) if isinstance(unwrap(a0), dict) else False))
+                    n_ctor += 1
+                    v.check(const, 'R-FLOW', '%s::%s constructs a reason_code @%s [%s]' % (f.cls, f.n, l, f.tu),
+                            'a reason_code built outside the tables carries a compile-time constant, not a byte from the wire',
+                            key='C20:R-FLOW:%s::%s:reason_code-from-wire' % (f.cls, f.n), where='%s:%s' % (f.path_file(), l))
+    v.expect_min('R-FLOW', 16, 'to_reason_code call sites: category + admission')
     v.expect_min('R-TABLE', 150, 'table rows + server rows + shape')
     v.expect_min('R-DOM', 9 * 5, '9 instantiations × (range, needle, deref, reject, accept)')
     return v.finish(
